@@ -5,7 +5,7 @@ from checks import docs
 
 ID = "C17"
 LEAN_MODULES = ["Econf.Props.C17"]
-THEOREMS = []
+THEOREMS = ["Econf.C17_line", "Econf.C17_comment_block", "Econf.C17_comment_block_first", "Econf.C17_trailing", "Econf.C17_values_plain", "Econf.C17_values_quoted", "Econf.C17_path_single", "Econf.C17_path_merged", "Econf.C02_parse_render"]
 RULE = ("conventional documents with comment blocks, trailing comments and multi-line values over-represented, read by absolute name, "
         "by relative names (after chdir) and through a symbolic link; every key's extended value and the path query are compared with "
         "the document; a merged result must report the empty path; distinct by (content, sets, way of naming the file)")
